@@ -19,11 +19,15 @@
     (`open_forward_connection`) and closes that socket.
   * `boost::asio::ip::make_address(host)` is the parameter `lit : Bytes → Option Bool`
     (`some true` = IPv4 literal, `some false` = IPv6 literal, `none` = not an address).
+  * The tree transcribed is the repaired one (fix commits 746df1d bracket rule, 381b549 m_connecting,
+    0932865 session numbers + resolver cancel + m_writing_to_server reset, 70e08a1 full buffer);
+    transcriptions of the pinned statements that were wrong are in Props/C18.lean (`*Pinned`).
   * The exceptions: `parse_request` / `forward_request` throw `std::runtime_error`, caught by the
     function-try-block of `on_read_request`, whose handler is `close_connection()`.
     Both throws of `forward_request` happen before it changed any member.
 -/
 import SimVerif.Http
+import SimVerif.HttpFast
 import SimVerif.Basic
 
 namespace SimVerif.HttpProxy
